@@ -62,7 +62,8 @@ func flattenPGV(err error, prefix string, out *[]pgvIssue) {
 			}
 		}
 		field := indexRe.ReplaceAllString(l.Field(), "[]")
-		reason := quotedRe.ReplaceAllString(l.Reason(), `"…"`)
+		// literals (patterns, offending values) are dropped so that the key is stable and plain ASCII
+		reason := strings.Join(strings.Fields(quotedRe.ReplaceAllString(l.Reason(), "")), " ")
 		*out = append(*out, pgvIssue{
 			Key: strings.TrimSuffix(l.ErrorName(), "ValidationError") + "." + field + ":" + reason,
 			Msg: path + ": " + l.Reason(),
